@@ -30,6 +30,7 @@ type vNode struct {
 	meta *raft.SnapshotMeta // content of a meta.json written through writeMeta
 	sc   *sidecar.Sidecar   // content of a sidecar written through sidecar.WriteFile
 	crc  uint32             // what rsum.CRC32 computes for this file
+	aux  any                // decoded content of any other structured file (a reap plan)
 }
 
 type vFSModel struct {
